@@ -85,6 +85,10 @@ type Path struct {
 	pc     []*Term
 
 	globals map[*ssa.Global]*Cell
+	// process-dependent sources (hash/maphash seeds, ...): one symbol per (process epoch, source, argument)
+	epoch    int
+	procRand map[string]*Term
+	opaqueFmts map[string]*Term
 	inited  map[*ssa.Package]bool
 	syncMaps map[*Cell]*MapObj
 	hostObjs map[*Cell]interface{}
